@@ -97,21 +97,26 @@ def binding_self_test(ctx, spec, cfg, trace, mutate, expect, max_lines=4000):
     trace spec to reject it with a failed predicate matching `expect` (a dict of signature fields).
     `mutate(record) -> bool` edits a parsed record in place and returns True once it has corrupted one."""
     import json
-    lines = []
-    with open(trace) as f:
-        for i, line in enumerate(f):
-            if i >= max_lines and '"ev":"case"' in line:
-                break
-            lines.append(line)
-    done = False
+    # find the first record that can be corrupted; keep up to max_lines lines before it (from a case
+    # boundary) and the lines after it up to max_lines more, cutting at a case boundary
     out = []
-    for line in lines:
-        if not done:
-            r = json.loads(line)
-            if mutate(r):
-                done = True
-                line = json.dumps(r, separators=(",", ":")) + "\n"
-        out.append(line)
+    done = False
+    after = 0
+    with open(trace) as f:
+        for line in f:
+            is_case = '"ev":"case"' in line
+            if not done:
+                if is_case and len(out) >= max_lines:
+                    out = []
+                r = json.loads(line)
+                if mutate(r):
+                    done = True
+                    line = json.dumps(r, separators=(",", ":")) + "\n"
+            else:
+                after += 1
+                if after >= 200 and is_case:
+                    break
+            out.append(line)
     if not done:
         ctx.cov["binding_self_test"] = {"ran": False, "why": "no record suitable for corruption in the trace prefix"}
         return
